@@ -47,7 +47,7 @@ def main():
             "level_claimed": {
                 "category": "model_checking",
                 "text": P["explanation"] + " Bounded: holds for all values within the per-harness bounds recorded in the evidence; outside: " + "; ".join(P["outside"]) + ".",
-                "design_ref": "DESIGN.md section 6, " + p,
+                "design_ref": "DESIGN.md section A (build status, families A.2, detection matrix A.5) and section 6, " + p,
             },
             "level_note": LEVEL_NOTE,
             "technique": "bounded model checking of the compiled crate: Kani proof harnesses (families %s) with symbolic arena state, requests and allocator behaviour, decided by CBMC/cadical; counterexamples replayed natively" % ", ".join(fams),
